@@ -84,7 +84,16 @@ def _replay_one(rec):
 
 def record(rng, n, maxbits, maxnt, force_max=False):
     cases = []
-    for i in range(n):
+    plan = []
+    if not force_max:
+        # values next to a power of the base, at the widths where machine words and floating-point logarithms give out
+        for L in (23, 24, 25, 26, 27, 31, 32, 33, 52, 53, 54, 63, 64, 65):
+            for base in (2, 4):
+                plan += [(base, [base - 1] * L), (base, [1] + [0] * (L - 1)), (base, [base - 1] * (L - 1) + [base - 2])]
+    for i in range(n + len(plan)):
+        if i >= n:
+            cases.append(convert(plan[i - n][0], plan[i - n][1], len(plan[i - n][1]) + (i % 2), "numpy" if i % 3 == 0 else "list"))
+            continue
         base = 2 if i % 2 == 0 else 4
         L = rng.choice([0, 1, 2, 31, 32, 33, 63, 64, 65, 100, 257, rng.randint(1, maxbits if base == 2 else maxnt),
                         maxbits if base == 2 else maxnt])
@@ -102,18 +111,22 @@ def record(rng, n, maxbits, maxnt, force_max=False):
             seq = [rng.randrange(base) for _ in range(L)]
         w = L + rng.choice([0, 0, 0, 1, 5])
         cont = "numpy" if (base == 2 and i % 4 == 0) else "list"
-        rs = _to_num(base, seq, True, cont)
-        ri = _to_num(base, seq, False, cont)
-        c = {"kind": "conv", "base": base, "seq": seq, "w": w, "container": cont}
-        c["str"] = [int(x) for x in rs["value"]] if rs["out"] == "ok" else [-1]
-        c["int"] = int_digits(ri["value"]) if ri["out"] == "ok" else [-1]
-        num_s = rs["value"] if rs["out"] == "ok" else "0"
-        b1 = _from_num(base, num_s, w)
-        b2 = _from_num(base, digits_int(num_s), w)
-        c["back_str"] = b1 if isinstance(b1, list) else [-1]
-        c["back_int"] = b2 if isinstance(b2, list) else [-1]
-        cases.append(c)
+        cases.append(convert(base, seq, w, cont))
     return cases
+
+
+def convert(base, seq, w, cont):
+    rs = _to_num(base, seq, True, cont)
+    ri = _to_num(base, seq, False, cont)
+    c = {"kind": "conv", "base": base, "seq": seq, "w": w, "container": cont}
+    c["str"] = [int(x) for x in rs["value"]] if rs["out"] == "ok" else [-1]
+    c["int"] = int_digits(ri["value"]) if ri["out"] == "ok" else [-1]
+    num_s = rs["value"] if rs["out"] == "ok" else "0"
+    b1 = _from_num(base, num_s, w)
+    b2 = _from_num(base, digits_int(num_s), w)
+    c["back_str"] = b1 if isinstance(b1, list) else [-1]
+    c["back_int"] = b2 if isinstance(b2, list) else [-1]
+    return c
 
 
 def run(ctx):
